@@ -291,6 +291,7 @@ def fresh_replay(prop, path):
 
 def run_batch(prop: str, tier: str, seed: int, nproc: int | None = None) -> int:
     t0 = time.time()
+    os.environ["VERIF_TIER_ACTIVE"] = tier  # checks may deepen their per-run work in the thorough tier
     mod = load_check(prop)
     n_runs, wall = mod.BUDGET[tier]
     n_runs = int(os.environ.get("VERIF_RUNS", n_runs))
